@@ -848,10 +848,14 @@ class Interp:
             return self.expr(e.body if self.truth(self.expr(e.test, env), e) else e.orelse, env)
         if isinstance(e, ast.Dict):
             return ADict({self.key_of(self.expr(k, env), e): self.expr(v, env) for k, v in zip(e.keys, e.values)})
-        if isinstance(e, ast.List):
-            return AList([self.expr(x, env) for x in e.elts])
-        if isinstance(e, ast.Tuple):
-            return tuple(self.expr(x, env) for x in e.elts)
+        if isinstance(e, (ast.List, ast.Tuple)):
+            out_ = []
+            for x in e.elts:
+                if isinstance(x, ast.Starred):
+                    out_.extend(self.iterate(self.expr(x.value, env), x))
+                else:
+                    out_.append(self.expr(x, env))
+            return AList(out_) if isinstance(e, ast.List) else tuple(out_)
         if isinstance(e, ast.Subscript):
             return self.subscript(self.expr(e.value, env), e.slice, env)
         if isinstance(e, ast.Call):
